@@ -155,10 +155,11 @@ type c18Case struct {
 	Spelling string
 	Vector   int
 	Escaping bool
+	Outside  string // name of the directory next to the root that holds the decoy
 }
 
 func (cs c18Case) String() string {
-	return fmt.Sprintf("root=%s entry=%s vector=%s escaping=%v", cs.Root.Name, cs.Spelling, c18Vectors[cs.Vector].Name, cs.Escaping)
+	return fmt.Sprintf("root=%s entry=%s vector=%s escaping=%v outside-dir=%s", cs.Root.Name, cs.Spelling, c18Vectors[cs.Vector].Name, cs.Escaping, cs.Outside)
 }
 
 func c18Run(c *core.Ctx, cs c18Case) {
@@ -175,14 +176,14 @@ func c18Run(c *core.Ctx, cs c18Case) {
 		root := filepath.Join(T, "root")
 		os.MkdirAll(filepath.Join(root, "sub"), 0o755)
 		os.MkdirAll(filepath.Join(root, "inside"), 0o755)
-		os.MkdirAll(filepath.Join(T, "outside"), 0o755)
+		os.MkdirAll(filepath.Join(T, cs.Outside), 0o755)
 		tdir := "inside"
 		if cs.Escaping {
-			tdir = "../outside"
+			tdir = "../" + cs.Outside
 		}
 		// the twin's target always holds content A; the outside decoy varies in both cases
 		c18Write(filepath.Join(root, "inside", "decoy.yaml"), "d: A\n")
-		outside := filepath.Join(T, "outside", "decoy.yaml")
+		outside := filepath.Join(T, cs.Outside, "decoy.yaml")
 		if st.Name != "absent" {
 			c18Write(outside, st.Content)
 		}
@@ -224,7 +225,7 @@ func c18Run(c *core.Ctx, cs c18Case) {
 			c.Fail("harness", "inotify", wit, merr.Error())
 			return
 		}
-		for _, w := range []string{outside, filepath.Join(T, "outside", "decoy.kid.yaml")} {
+		for _, w := range []string{outside, filepath.Join(T, cs.Outside, "decoy.kid.yaml")} {
 			if _, err := os.Lstat(w); err == nil {
 				mon.watch(w)
 			}
@@ -315,9 +316,8 @@ func buildC18(tier string) *core.Plan {
 	for _, r := range c18Roots {
 		for _, sp := range c18EntrySpellings {
 			for v := range c18Vectors {
-				for _, esc := range []bool{true, false} {
-					cases = append(cases, c18Case{r, sp, v, esc})
-				}
+				// the outside directory is once unrelated and once a sibling whose name extends the root's name
+				cases = append(cases, c18Case{r, sp, v, true, "outside"}, c18Case{r, sp, v, true, "root-x"}, c18Case{r, sp, v, false, "outside"})
 			}
 		}
 	}
@@ -392,7 +392,7 @@ func buildC18(tier string) *core.Plan {
 	return &core.Plan{
 		Spaces: []core.Space{cli, lib},
 		Rule: "product of 5 root spellings (., name from the parent, .. from a sub-directory, absolute, and / as a control) x 4 entry spellings x 12 escape vectors ($parent relative/from a sub-directory/absolute/wildcard, file symlink relative/absolute/chained, directory symlink via $parent and via the input path, symlink whose target name has a parent, input path with .., virtual extension) " +
-			"x {escaping, non-escaping twin} x 4 states of the outside decoy (content A, content B, invalid, absent)",
+			"x {escaping to an unrelated directory, escaping to a sibling directory whose name extends the root name, non-escaping twin} x 4 states of the outside decoy (content A, content B, invalid, absent)",
 		Assumptions: []string{"an inotify watch (IN_OPEN|IN_ACCESS) on every decoy file outside the root observes opens and reads by the bkl process; stat and readlink do not raise these events and are not 'reading contents'",
 			"with -r / nothing is outside: those runs are the control showing that each vector does reach the decoy when not confined",
 			"absolute $parent and absolute symlinks are refused even inside the root (os.Root semantics); their twins are not judged"},
